@@ -13,7 +13,7 @@ C18_FORMATS = [('h5', 3), ('xtc', 4), ('trr', 4), ('dcd', 3), ('nc', 3), ('mdcrd
                ('lammpstrj', 2), ('dtr', 2)]
 C02_FORMATS = [('h5', 4), ('xtc', 4), ('trr', 3), ('dcd', 3), ('nc', 3), ('mdcrd', 2), ('xyz', 2),
                ('lammpstrj', 2), ('gro', 1), ('pdb', 1), ('dtr', 1)]
-ATOMS = [1, 2, 3, 8, 9, 10, 11, 22, 50]
+ATOMS = [1, 2, 3, 8, 9, 10, 11, 20, 22, 30, 50]
 XTOL = 5e-4
 
 
@@ -49,6 +49,13 @@ def _gen_file(rng, formats, tier, max_frames=None):
     if fmt == 'lammpstrj':
         # legal `dump custom` column layouts other than the one mdtraj writes (the reader detects the columns per file)
         knobs['layout'] = rng.choice(['std', 'std', 'mol_first', 'reordered'])
+    # extension aliases registered for the same reader, gz variants, and where the molecule sits (negative and large coordinates)
+    alias = {'nc': ['.nc', '.nc', '.netcdf', '.ncdf'], 'mdcrd': ['.mdcrd', '.crd'], 'h5': ['.h5', '.h5', '.hdf5'],
+             'xyz': ['.xyz', '.xyz', '.xyz.gz'], 'pdb': ['.pdb', '.pdb.gz']}
+    if fmt in alias:
+        knobs['ext'] = rng.choice(alias[fmt])
+    if rng.chance(0.4):
+        knobs['origin'] = rng.choice([[-3.0, -2.0, -5.0], [40.0, -20.0, 7.0], [-0.4, 0.0, -1.2]])
     return {'fmt': fmt, 'n_frames': n, 'n_atoms': n_atoms, 'cell': cell, 'seed': rng.below(1 << 30), 'knobs': knobs}
 
 
@@ -208,7 +215,9 @@ class World(object):
                 self.files.append({'spec': dict(fs, n_frames=n), 'path': path, 'traj': None, 'xyz': ref[:n], 'time': None, 'L': None, 'A': None,
                                    'top_path': None, 'top_saved': False, 'F': None, 'shared_top': None, 'exact': True})
                 continue
-            t = fmts.make_traj(fs['n_frames'], fs['n_atoms'], fs['cell'], fs['seed'])
+            origin = tuple(fs['knobs'].get('origin', (0.0, 0.0, 0.0)))
+            path = os.path.join(workdir, 'f%d%s' % (k, fs['knobs'].get('ext', F['ext'])))
+            t = fmts.make_traj(fs['n_frames'], fs['n_atoms'], fs['cell'], fs['seed'], origin)
             kw = {}
             if fs['fmt'] == 'h5':
                 # compression knob goes through the file object
@@ -219,9 +228,9 @@ class World(object):
                 t.save(path, **kw)
             if fs['fmt'] == 'lammpstrj' and fs['knobs'].get('layout', 'std') != 'std':
                 _relayout_lammpstrj(path, fs['knobs']['layout'])
-            x, tm, L, A = fmts.tagged_arrays(fs['n_frames'], fs['n_atoms'], fs['cell'], fs['seed'])
+            x, tm, L, A = fmts.tagged_arrays(fs['n_frames'], fs['n_atoms'], fs['cell'], fs['seed'], origin)
             top_path = os.path.join(workdir, 'top%d.pdb' % k)
-            self.files.append({'spec': fs, 'path': path, 'traj': t, 'xyz': x, 'time': tm, 'L': L, 'A': A,
+            self.files.append({'spec': fs, 'path': path, 'traj': t, 'xyz': x, 'time': tm, 'L': L, 'A': A, 'ox': origin[0],
                                'top_path': top_path, 'top_saved': False, 'F': None, 'shared_top': t.topology.copy()})
 
     def top_for(self, k, kind):
@@ -273,12 +282,12 @@ def _posclass(pos, N):
     return '0' if pos == 0 else ('N' if pos >= N else 'mid')
 
 
-def _decode_ids(xyz_nm, ai):
-    """frame ids from the tag: x of first returned atom = 0.1*(i+1) + 0.013*a (+- 0.004)"""
+def _decode_ids(xyz_nm, ai, ox=0.0):
+    """frame ids from the tag: x of first returned atom = origin_x + 0.1*(i+1) + 0.013*a (+- 0.004)"""
     if xyz_nm.shape[0] == 0 or xyz_nm.ndim != 3 or xyz_nm.shape[1] == 0:
         return []
     a0 = 0 if ai is None else int(ai[0])
-    v = (xyz_nm[:, 0, 0].astype(np.float64) - 0.013 * a0) / 0.1 - 1.0
+    v = (xyz_nm[:, 0, 0].astype(np.float64) - ox - 0.013 * a0) / 0.1 - 1.0
     return [int(x) if np.isfinite(x) else -999 for x in np.round(v)]
 
 
@@ -289,7 +298,7 @@ def _check_frames(f, fmt, parts, ids, ai):
     if len(ids) == 0 and xyz.shape[0] == 0:
         return None          # zero frames, in whatever empty shape the format uses
     if xyz.ndim != 3 or xyz.shape[0] != len(ids):
-        got = _decode_ids(xyz, ai) if xyz.ndim == 3 else None
+        got = _decode_ids(xyz, ai, f.get('ox', 0.0)) if xyz.ndim == 3 else None
         return 'count', {'expected_ids': ids, 'got_n': int(xyz.shape[0]) if xyz.ndim >= 1 else None, 'got_ids': got}
     if len(ids) == 0:
         return None
@@ -303,7 +312,7 @@ def _check_frames(f, fmt, parts, ids, ai):
             return 'frames', {'expected_ids': list(ids), 'note': 'fixture frames compared exactly with a fresh sequential read'}
         return None
     if not np.allclose(xyz, ref, atol=XTOL, rtol=0):
-        got = _decode_ids(xyz, ai)
+        got = _decode_ids(xyz, ai, f.get('ox', 0.0))
         if got != list(ids):
             return 'frames', {'expected_ids': list(ids), 'got_ids': got}
         return 'data', {'expected_ids': list(ids), 'max_abs_err': float(np.nanmax(np.abs(xyz - ref)))}
